@@ -273,8 +273,12 @@ fn deps_of(reg: &Registry, req: &Request<Body>, mrt_dir: &PathBuf) -> String {
     let canon_dir = mrt_dir.canonicalize().ok();
     for p in params.iter().take(12) {
         let v = p.value();
-        let mut pieces: Vec<&str> = v.split(',').take(8).collect();
-        pieces.push(v);
+        // the model asks the ASN / community parsers only about values of `select…` / `discard…` parameters (every comma
+        // piece); short values of other parameters are supplied as well (a model that asked for them would be told), long
+        // ones are not repeated three times on the case line
+        let filterish = matches!(p.name().split(&['[', ']'][..]).next(), Some("select") | Some("discard"));
+        let mut pieces: Vec<&str> = if filterish { v.split(',').collect() } else if v.len() <= 64 { v.split(',').take(8).collect() } else { vec![] };
+        if filterish || v.len() <= 64 { pieces.push(v); }
         for piece in pieces {
             // "1" Ok, "0" Err, "p" the dependency's parser panics itself
             let tri = |r: std::thread::Result<bool>| match r { Ok(true) => "1", Ok(false) => "0", Err(_) => "p" }.to_string();
@@ -540,6 +544,211 @@ impl Gen {
     }
 }
 
+
+// ------------------------------------------------------------ long text values
+//
+// "Every request" includes requests whose text fields are long. For every endpoint and every place a request can carry
+// text (path after the base path, every query parameter name the endpoints look up and its value, unknown parameter
+// names, the header the handler reads) a stream of values of 63/64/65 … 4095/4096/4097 bytes and a few random lengths up
+// to 16 KiB, built from 1-, 2-, 3- and 4-byte UTF-8 characters behind 0..3 leading ASCII bytes (so that a character
+// straddles any fixed byte offset in one of the four), percent-encoded / raw / fully percent-encoded, naming things
+// that exist (files and directories below the update directory, accepted parameter values) and things that do not.
+
+#[derive(Clone, Copy, PartialEq, Debug)]
+enum Cls { One, Two, Three, Four, Mix }
+#[derive(Clone, Copy, PartialEq, Debug)]
+enum Enc { Raw, Pct, PctAll }
+const CLASSES: [Cls; 5] = [Cls::One, Cls::Two, Cls::Three, Cls::Four, Cls::Mix];
+const LONG_LENS: [usize; 18] = [63, 64, 65, 127, 128, 129, 255, 256, 257, 511, 512, 513, 1023, 1024, 1025, 4095, 4096, 4097];
+/// lengths for which files with such names exist below the update directory (NAME_MAX = 255)
+const DISK_NAME_LENS: [usize; 7] = [63, 64, 65, 127, 128, 129, 255];
+const CHAIN_COMP: usize = 31;
+const CHAIN_DEPTH: usize = 118;
+
+/// Exactly `len` bytes of UTF-8: `lead` ASCII bytes, characters of the class, ASCII padding (< 4 bytes) at the end.
+/// Only characters that are literal in a path segment, a query component and a file name.
+fn long_text(len: usize, cls: Cls, lead: usize, salt: usize) -> String {
+    let mut s = String::with_capacity(len + 4);
+    for i in 0..lead.min(len) { s.push(b"xyz"[(i + salt) % 3] as char); }
+    let units: &[&str] = match cls {
+        Cls::One => &["x", "y", "z", "w", "_", "-"],
+        Cls::Two => &["é", "ß", "ü"],
+        Cls::Three => &["€", "語", "ア"],
+        Cls::Four => &["😀", "𝄞", "🦀"],
+        Cls::Mix => &["é", "€", "😀", "z"],
+    };
+    let mut i = salt;
+    loop { let u = units[i % units.len()]; if s.len() + u.len() > len { break; } s.push_str(u); i += 1; }
+    while s.len() < len { s.push('w'); }
+    s
+}
+
+fn enc_text(s: &str, enc: Enc) -> Vec<u8> {
+    let mut out = Vec::with_capacity(s.len() * 3);
+    for &b in s.as_bytes() {
+        let literal = match enc { Enc::Raw => true, Enc::Pct => b < 128 && b != b' ', Enc::PctAll => false };
+        if literal { out.push(b); } else { out.extend(pct(b)); }
+    }
+    out
+}
+
+/// Long names that exist below the update directory: files whose name is `long_text(len, cls, lead, 0)` for the lengths a
+/// file name can have, and per class a chain of nested directories (every component the same 31-byte name), reached with
+/// `.` + slashes in front so that a path of any length up to ~3.7 kB exists.
+fn make_long_names(mrt_dir: &PathBuf) {
+    for cls in CLASSES { for lead in 0..4 { for len in DISK_NAME_LENS {
+        let _ = std::fs::write(mrt_dir.join(long_text(len, cls, lead, 0)), b"x");
+    } } }
+    for cls in CLASSES {
+        let comp = long_text(CHAIN_COMP, cls, 0, 0);
+        let mut d = mrt_dir.clone();
+        for _ in 0..CHAIN_DEPTH { d.push(&comp); }
+        let _ = std::fs::create_dir_all(&d);
+    }
+}
+
+/// A relative path of exactly `len` bytes that exists below the update directory (if the generator could build one).
+fn existing_long_value(len: usize, cls: Cls, lead: usize, via_chain: bool) -> String {
+    if !via_chain && DISK_NAME_LENS.contains(&len) { return long_text(len, cls, lead, 0); }
+    let comp = long_text(CHAIN_COMP, cls, 0, 0);
+    let k = ((len.saturating_sub(1)) / (CHAIN_COMP + 1)).clamp(1, CHAIN_DEPTH);
+    let body = vec![comp; k].join("/");
+    let pad = len.saturating_sub(body.len()).max(2);
+    format!(".{}{}", "/".repeat(pad - 1), body)
+}
+
+const RIB_VALUE_NAMES: [&str; 13] = ["include", "details", "filter_op", "sort", "format", "select", "discard",
+    "select[as_path]", "select[peer_as]", "select[community]", "discard[as_path]", "discard[peer_as]", "discard[community]"];
+const N_PLACES: usize = 66;
+
+impl Gen {
+    /// One request with a long text at place number `place` (`< N_PLACES`).
+    fn long_case(&mut self, reg: &Registry, mrt_dir: &PathBuf, place: usize, len: usize, cls: Cls, lead: usize, enc: Enc) -> (Case, &'static str) {
+        let salt = self.rng.below(6) as usize;
+        let t = long_text(len, cls, lead, salt);
+        let e = enc_text(&t, enc);
+        let es = |x: &str| -> Vec<u8> { enc_text(x, enc) };
+        let cat = |parts: &[&[u8]]| -> Vec<u8> { parts.concat() };
+        let ribs: Vec<String> = reg.procs.iter().filter_map(|p| if let ProcDesc::Rib(b, _, _) = p { Some(b.clone()) } else { None }).collect();
+        let mrts: Vec<(String, bool)> = reg.procs.iter().filter_map(|p| if let ProcDesc::Mrt(b, d) = p { Some((b.clone(), *d)) } else { None }).collect();
+        let lists: Vec<String> = reg.procs.iter().filter_map(|p| if let ProcDesc::RouterList(b) = p { Some(b.clone()) } else { None }).collect();
+        let rib = self.rng.pick(&ribs).clone().into_bytes();
+        let (mrt, has_dir) = { let with_dir: Vec<&(String, bool)> = mrts.iter().filter(|m| m.1).collect();
+            let m = if !with_dir.is_empty() && self.rng.chance(3, 4) { (*self.rng.pick(&with_dir)).clone() } else { self.rng.pick(&mrts).clone() }; (m.0.into_bytes(), m.1) };
+        let list = if lists.is_empty() { b"/routers/".to_vec() } else { self.rng.pick(&lists).clone().into_bytes() };
+        let good_prefix: &[u8] = *self.rng.pick(&[&b"10.0.0.0/8"[..], b"1.2.3.0/24", b"2001:db8::/32"]);
+        let mut path: Vec<u8> = b"/status".to_vec();
+        let mut query: Option<Vec<u8>> = None;
+        let mut ae: Option<Vec<u8>> = None;
+        let mut expect: Option<u16> = None;
+        // realpath resolves component by component: a path longer than PATH_MAX exists as long as what it resolves to is shorter
+        let on_disk = |v: &str| -> bool { !v.contains('\0') && std::fs::canonicalize(mrt_dir.join(v)).is_ok() };
+        let name: &'static str = match place {
+            // ---- the path
+            0 => { path = cat(&[b"/", &e]); expect = Some(404); "path./T" }
+            1 => { path = cat(&[b"/status/", &e]); "path./status/T" }
+            2 => { path = cat(&[b"/status", &e]); "path./statusT" }
+            3 => { path = cat(&[b"/metrics", &e]); expect = Some(404); "path./metricsT" }
+            4 => { path = cat(&[b"/metrics/", &e]); expect = Some(404); "path./metrics/T" }
+            5 => { path = cat(&[b"/status/traces", &e]); "path./status/tracesT" }
+            6 => { path = cat(&[b"/status/traces/", &e]); "path./status/traces/T" }
+            7 => { path = cat(&[b"/status/graph", &e]); "path./status/graphT" }
+            8 => { path = cat(&[b"/status/graph/", &e]); "path./status/graph/T" }
+            9 => { path = cat(&[b"/status/graph/traces/", &e]); "path./status/graph/traces/T" }
+            10 => { path = cat(&[b"/status/graph", &e, b"/traces/7"]); "path./status/graphT/traces/7" }
+            11 => { path = cat(&[b"/status/graph/", &e, b"/traces/", &e]); "path./status/graph/T/traces/T" }
+            12 => { path = cat(&[&rib, &e]); "path.ribT" }
+            13 => { path = cat(&[&rib, &e, b"/24"]); "path.ribT/24" }
+            14 => { path = cat(&[&rib, b"10.0.0.0/", &e]); "path.rib-10.0.0.0/T" }
+            15 => { path = cat(&[&rib, good_prefix, b"/", &e]); "path.rib-prefix/T" }
+            16 => { path = cat(&[&rib, &e, b"/", &e]); "path.ribT/T" }
+            17 => { path = cat(&[&mrt, b"queue", &e]); query = Some(b"file=a.mrt".to_vec()); expect = Some(if has_dir { 200 } else { 400 }); "path.mrt-queueT" }
+            18 => { path = cat(&[&mrt, b"queue/", &e]); query = Some(b"file=missing.mrt".to_vec()); expect = Some(400); "path.mrt-queue/T" }
+            19 => { path = cat(&[&mrt, &e]); query = Some(b"file=a.mrt".to_vec()); "path.mrtT" }
+            20 => { path = cat(&[&list, &e]); "path.routersT" }
+            21 => { path = cat(&[&list[..list.len() - 1], &e]); "path.routers-no-slash-T" }
+            // ---- RIB query: the value of every parameter the endpoint looks up
+            22..=34 => {
+                let n = RIB_VALUE_NAMES[place - 22];
+                path = cat(&[&rib, good_prefix]);
+                query = Some(cat(&[&es(n), b"=", &e]));
+                if n == "sort" { expect = Some(200); } else { expect = Some(400); }
+                // leading ASCII "xyz" is never a keyword, an ASN or a community
+                ["rib.include=T", "rib.details=T", "rib.filter_op=T", "rib.sort=T", "rib.format=T", "rib.select=T", "rib.discard=T", "rib.select[as_path]=T", "rib.select[peer_as]=T",
+                 "rib.select[community]=T", "rib.discard[as_path]=T", "rib.discard[peer_as]=T", "rib.discard[community]=T"][place - 22]
+            }
+            35 => { path = cat(&[&rib, good_prefix]); query = Some(cat(&[b"select[as_path]=AS1,", &e])); expect = Some(400); "rib.select[as_path]=AS1,T" }
+            36 => { path = cat(&[&rib, good_prefix]); query = Some(cat(&[b"discard[as_path]=", &e, b",AS1"])); expect = Some(400); "rib.discard[as_path]=T,AS1" }
+            // accepted long values ("names that exist"): repeated keywords, a long AS path, a long sort pointer
+            37 => { path = cat(&[&rib, good_prefix]); let kw = *self.rng.pick(&["include=lessSpecifics", "details=communities"]);
+                    let (k, v) = kw.split_once('=').unwrap(); let mut val = v.to_string(); while val.len() + v.len() + 1 <= len { val.push(','); val.push_str(v); }
+                    query = Some(cat(&[k.as_bytes(), b"=", &es(&val)])); expect = Some(200); "rib.keyword-list-long-valid" }
+            38 => { path = cat(&[&rib, good_prefix]); let mut val = "AS64496".to_string(); let mut i = 0u32; while val.len() + 9 <= len { val.push_str(&format!(",{}", 64497 + (i % 500))); i += 1; }
+                    let n = *self.rng.pick(&["select[as_path]", "discard[as_path]"]);
+                    query = Some(cat(&[&es(n), b"=", &es(&val)])); expect = Some(200); "rib.as_path-long-valid" }
+            39 => { path = cat(&[&rib, good_prefix]); query = Some(cat(&[b"select[", &e, b"]=1"])); expect = Some(400); "rib.select[T]=1" }
+            40 => { path = cat(&[&rib, good_prefix]); query = Some(cat(&[b"include[", &e, b"]=lessSpecifics"])); expect = Some(200); "rib.include[T]=ok" }
+            41 => { path = cat(&[&rib, good_prefix]); query = Some(cat(&[&e, b"=1"])); expect = Some(400); "rib.T=1" }
+            42 => { path = cat(&[&rib, good_prefix]); query = Some(e.clone()); expect = Some(400); "rib.T" }
+            43 => { path = cat(&[&rib, good_prefix]); let n = *self.rng.pick(&["include", "select", "sort", "format", "details", "discard", "filter_op"]);
+                    query = Some(cat(&[n.as_bytes(), &e, b"=", &e])); expect = Some(400); "rib.nameT=T" }
+            44 => { path = cat(&[&rib, b"not_a_prefix"]); query = Some(cat(&[b"sort=", &e])); expect = Some(400); "rib.bad-prefix?sort=T" }
+            45 => { path = cat(&[&rib, b"17"]); query = Some(cat(&[&e, b"=", &e])); "rib.ingress?T=T" }
+            // ---- mrt queue: `file`
+            46 => { path = cat(&[&mrt, b"queue"]); query = Some(cat(&[b"file=", &e])); expect = Some(if has_dir && on_disk(&t) { 200 } else { 400 }); "mrt.file=T" }
+            47 | 48 => {
+                let v = existing_long_value(len, cls, lead, place == 48);
+                path = cat(&[&mrt, b"queue"]); query = Some(cat(&[b"file=", &es(&v)]));
+                expect = Some(if has_dir && on_disk(&v) { 200 } else { 400 });
+                if place == 47 { "mrt.file=existing-name" } else { "mrt.file=existing-deep-path" }
+            }
+            49 => { path = cat(&[&mrt, b"queue"]); query = Some(cat(&[b"file=sub/", &e])); expect = Some(400); "mrt.file=sub/T" }
+            50 => { path = cat(&[&mrt, b"queue"]); query = Some(cat(&[b"file=", &e, b"/../a.mrt"])); expect = Some(400); "mrt.file=T/../a.mrt" }
+            51 => { path = cat(&[&mrt, b"queue"]); query = Some(cat(&[b"file=/", &e])); expect = Some(400); "mrt.file=/T" }
+            52 => { path = cat(&[&mrt, b"queue"]); query = Some(cat(&[b"file=../", &e])); expect = Some(400); "mrt.file=../T" }
+            53 => { path = cat(&[&mrt, b"queue"]); query = Some(cat(&[b"file[", &e, b"]=a.mrt"])); expect = Some(400); "mrt.file[T]=a.mrt" }
+            54 => { path = cat(&[&mrt, b"queue"]); query = Some(cat(&[b"file", &e, b"=a.mrt"])); expect = Some(400); "mrt.fileT=a.mrt" }
+            55 => { path = cat(&[&mrt, b"queue"]); query = Some(cat(&[&e, b"=", &e, b"&file=a.mrt"])); expect = Some(if has_dir { 200 } else { 400 }); "mrt.T=T&file=ok" }
+            56 => { path = cat(&[&mrt, b"queue"]); query = Some(cat(&[b"file=a.mrt&file=", &e])); expect = Some(if has_dir { 200 } else { 400 }); "mrt.file=ok&file=T" }
+            57 => { path = cat(&[&mrt, b"queue"]); query = Some(cat(&[b"file=", &e, b"&file=a.mrt"])); expect = Some(if has_dir && on_disk(&t) { 200 } else { 400 }); "mrt.file=T&file=ok" }
+            // ---- router list
+            58 => { path = list.clone(); query = Some(cat(&[b"sort_by=", &e])); if !lists.is_empty() { expect = Some(400); } "routers.sort_by=T" }
+            59 => { path = list.clone(); query = Some(cat(&[b"sort_order=", &e])); if !lists.is_empty() { expect = Some(400); } "routers.sort_order=T" }
+            60 => { path = list.clone(); query = Some(cat(&[b"sort_by[", &e, b"]=addr&sort_order=asc"])); if !lists.is_empty() { expect = Some(200); } "routers.sort_by[T]=addr" }
+            61 => { path = list.clone(); query = Some(cat(&[b"sort_by=addr&", &e, b"=", &e])); if !lists.is_empty() { expect = Some(200); } "routers.T=T" }
+            // ---- fixed endpoints with a long query
+            62 => { path = self.rng.pick(&["/status", "/metrics", "/status/traces"]).as_bytes().to_vec(); query = Some(cat(&[&e, b"=", &e])); expect = Some(200); "fixed?T=T" }
+            // ---- the header the handler reads (header values are not percent-decoded: the text goes in as it is)
+            63 => { path = self.rng.pick(&["/status", "/metrics", "/prefixes/x"]).as_bytes().to_vec(); ae = Some(e.clone()); "accept-encoding.T" }
+            64 => { ae = Some(cat(&[b"gzip, ", &e])); "accept-encoding.gzip,T" }
+            _ => { ae = Some(if self.rng.chance(1, 2) { cat(&[&e, b", gzip"]) } else { cat(&[&e, b"gzip"]) }); "accept-encoding.T,gzip" }
+        };
+        let method = if self.rng.chance(97, 100) { "GET".to_string() } else { self.rng.pick(&["POST", "HEAD", "PUT"]).to_string() };
+        if method != "GET" { expect = None; }
+        if ae.is_none() && place < 63 { ae = match self.rng.below(4) { 0 => Some(b"gzip".to_vec()), 1 => Some(b"identity".to_vec()), _ => None }; }
+        (Case { method, path, query, ae, ae2: None, expect, kind: "long" }, name)
+    }
+}
+
+fn run_long(rec: &mut Recorder, rt: &tokio::runtime::Runtime, reg: &Registry, mrt_dir: &PathBuf, g: &mut Gen, place: usize, len: usize, listed: bool, cls: Cls, lead: usize, enc: Enc) {
+    let (c, name) = g.long_case(reg, mrt_dir, place, len, cls, lead, enc);
+    let raw_len = c.path.len() + c.query.as_ref().map(|q| q.len() + 1).unwrap_or(0);
+    if raw_len > 65000 { rec.bump("long.skipped-over-http-uri-limit"); return; }
+    match run_case(rec, rt, reg, &c, mrt_dir) {
+        // http::Uri takes raw bytes >= 0x80 in the path but not in the query: where the raw form is not a legal request the
+        // same text is sent percent-encoded
+        None if enc == Enc::Raw => { rec.bump(&format!("long.raw-not-legal.{}", name.split('.').next().unwrap_or("?"))); run_long(rec, rt, reg, mrt_dir, g, place, len, listed, cls, lead, Enc::Pct); }
+        None => rec.bump(&format!("long.rejected-by-http-parser.{:?}", enc)),
+        Some(_) => {
+            rec.bump(&format!("long.place.{}", name));
+            rec.bump(&if listed { format!("long.len.{:04}", len) } else { "long.len.random<=16384".to_string() });
+            rec.bump(&format!("long.chars.{:?}", cls));
+            rec.bump(&format!("long.lead.{}", lead));
+            rec.bump(&format!("long.enc.{:?}", enc));
+        }
+    }
+}
+
 fn main() {
     let args = parse_args();
     let t0 = Instant::now();
@@ -549,7 +758,7 @@ fn main() {
         let msg: String = msg.chars().map(|c| if c.is_ascii_graphic() { c } else { '_' }).take(120).collect();
         PANIC_AT.with(|p| *p.borrow_mut() = format!("{} {}", loc, msg));
     }));
-    let mut rec = Recorder::new("hyper::Requests (all methods; fixed, graph/traces, RIB prefix + ingress-id, mrt queue, unknown, over-long, other request-target forms; percent-encoded incl. invalid UTF-8; structured + mutated query strings; Accept-Encoding absent / valid / bytes >= 0x80) into the real Server::handle_request against two registries x compression on/off, each followed by GET /status; non-trivial = a GET that reached a 200/400 answer or a panic, or carried an Accept-Encoding header; distinct = distinct case lines");
+    let mut rec = Recorder::new("hyper::Requests (all methods; fixed, graph/traces, RIB prefix + ingress-id, mrt queue, unknown, over-long, other request-target forms; percent-encoded incl. invalid UTF-8; structured + mutated query strings; Accept-Encoding absent / valid / bytes >= 0x80; long values: for every place a request carries text (path after each base, every looked-up parameter name and its value, unknown names, Accept-Encoding) 63..4097-byte and random <= 16 KiB texts of 1-/2-/3-/4-byte characters behind 0..3 ASCII bytes, percent-encoded / raw where the URI parser takes it, existing and non-existing names) into the real Server::handle_request against two registries x compression on/off, each followed by GET /status; non-trivial = a GET that reached a 200/400 answer or a panic, or carried an Accept-Encoding header; distinct = distinct case lines");
     let rt = tokio::runtime::Builder::new_current_thread().enable_all().build().unwrap();
 
     // a directory for the mrt queue endpoint: files inside, a file outside, a symlink leading out
@@ -560,6 +769,7 @@ fn main() {
     std::fs::write(mrt_dir.join("sub/b.mrt"), b"x").unwrap();
     std::fs::write(root.join("outside.mrt"), b"x").unwrap();
     let _ = std::os::unix::fs::symlink(root.join("outside.mrt"), mrt_dir.join("link-out"));
+    make_long_names(&mrt_dir);
 
     let layout_a = vec![(ProcDesc::Rib("/prefixes/".into(), 8, 19), false), (ProcDesc::Dead, false), (ProcDesc::Mrt("/mrt/".into(), false), false), (ProcDesc::Mrt("/mrtq/".into(), true), false)];
     let layout_b = vec![(ProcDesc::Rib("/status/gr".into(), 0, 0), true), (ProcDesc::Rib("/p".into(), 0, 0), false), (ProcDesc::Mrt("/p/m/".into(), true), false), (ProcDesc::Rib("/prefixes/".into(), 8, 19), false), (ProcDesc::Rib("/rib/ipv4/".into(), 24, 48), false)];
@@ -612,12 +822,41 @@ fn main() {
         run_case(&mut rec, &rt, &regs[0], &c, &mrt_dir);
     }
 
+    let budget = if args.thorough { 420.0 } else { 50.0 };
+    // 1. long text values: every place x every listed length x every alignment (0..3 leading ASCII bytes); character class,
+    //    encoding and registry drawn per case (thorough: every class). Own generator state: the stream below is unchanged.
+    let mut lg = Gen { rng: Rng::new(args.seed ^ 0x4c4f_4e47), brackets: 0 };
+    'long: for place in 0..N_PLACES {
+        let mut lens: Vec<(usize, bool)> = LONG_LENS.iter().map(|l| (*l, true)).collect();
+        for _ in 0..(if args.thorough { 6 } else { 2 }) { lens.push((lg.rng.range(66, 16384) as usize, false)); }
+        for (len, listed) in lens {
+            if t0.elapsed().as_secs_f64() > budget * 0.6 { rec.bump("gen.long-stopped-by-time-budget"); break 'long; }
+            // quick tier: the 4 KiB and random lengths get one alignment per character class instead of all four
+            let leads: Vec<usize> = if args.thorough || len <= 1025 { vec![0, 1, 2, 3] } else { vec![lg.rng.below(4) as usize] };
+            for lead in leads {
+                let classes: Vec<Cls> = if args.thorough { CLASSES.to_vec() } else if len <= 1025 { vec![*lg.rng.pick(&CLASSES)] } else { vec![*lg.rng.pick(&CLASSES[1..])] };
+                for cls in classes {
+                    let enc = *lg.rng.pick(&[Enc::Pct, Enc::Pct, Enc::Raw, Enc::Raw, Enc::PctAll]);
+                    let reg = &regs[lg.rng.below(regs.len() as u64) as usize];
+                    run_long(&mut rec, &rt, reg, &mrt_dir, &mut lg, place, len, listed, cls, lead, enc);
+                }
+            }
+        }
+    }
+
     let mut g = Gen { rng: Rng::new(args.seed), brackets: 0 };
     let n = if args.thorough { 600_000 } else { 30_000 };
-    let budget = if args.thorough { 420.0 } else { 50.0 };
     for i in 0..n {
         if i % 256 == 0 && t0.elapsed().as_secs_f64() > budget { rec.bump("gen.stopped-by-time-budget"); break; }
         let reg = &regs[g.rng.below(regs.len() as u64) as usize];
+        if g.rng.chance(2, 100) {
+            // long values also inside the random stream: any place, listed or random length, any class / alignment / encoding
+            let place = g.rng.below(N_PLACES as u64) as usize;
+            let (len, listed) = if g.rng.chance(3, 4) { (*g.rng.pick(&LONG_LENS), true) } else { { let hi = if g.rng.chance(1, 8) { 16384 } else { 2048 }; (g.rng.range(66, hi) as usize, false) } };
+            let (cls, lead, enc) = (*g.rng.pick(&CLASSES), g.rng.below(4) as usize, *g.rng.pick(&[Enc::Pct, Enc::Raw, Enc::PctAll]));
+            run_long(&mut rec, &rt, reg, &mrt_dir, &mut g, place, len, listed, cls, lead, enc);
+            continue;
+        }
         let mut c = g.case(reg);
         if g.rng.chance(15, 100) { c = g.mutate(c); }
         run_case(&mut rec, &rt, reg, &c, &mrt_dir);
